@@ -33,13 +33,13 @@ Check terminal_silentb_sound : forall F f s, terminal_silentb F f s = true -> te
      [AProd; AProd; AProd; AProd; AProd; ACDrop; ACons; ACons; ADispose; AProd]
    (the drop lands after the job's `closed` test and `notify_stream_closed = None`, before the Pending arm stores the
    waker; see the line-by-line translation in Scenarios.v). *)
-Theorem C16_refuted : ~ C16_statement facts_now.
+Theorem C16_refuted : ~ C16_statement facts_unrepaired.
 Proof. exact C16_refuted_now. Qed.
 Print Assumptions C16_refuted.
 
 Theorem C16_refuted_detail :
-  exists s, run facts_now f100 (init facts_now [1] false) c16_witness = Some s /\
-            dropped s = true /\ terminal_silent facts_now f100 s /\
+  exists s, run facts_unrepaired f100 (init facts_unrepaired [1] false) c16_witness = Some s /\
+            dropped s = true /\ terminal_silent facts_unrepaired f100 s /\
             s.(strong_held) = false /\ s.(poll_fn) = true /\ s.(inp_waker) = Some 0 /\ is_live s 0 = true /\
             released s = false.
 Proof. exact C16_refuted_now_detail. Qed.
